@@ -63,6 +63,7 @@ type World struct {
 	Feeds       []*Collector
 	savedMaxDoc int
 	closed      bool
+	external    bool // directory owned by the caller
 }
 
 // shardTag keeps bucket names of concurrently running shard processes apart (names are
@@ -81,9 +82,18 @@ func tmpRoot() string {
 	return os.TempDir()
 }
 
-func NewWorld(cfg Config) (*World, error) {
+func NewWorld(cfg Config) (*World, error) { return NewWorldAt(cfg, "", "", false) }
+
+// NewWorldAt creates a world in a given directory (on-disk worlds of child processes), or, with
+// existing=true, attaches to a bucket that is already there (the parent after a crash). The
+// directory is then owned by the caller: Close() closes the handles without deleting anything.
+func NewWorldAt(cfg Config, dir, name string, existing bool) (*World, error) {
 	n := atomic.AddInt64(&worldSerial, 1)
 	w := &World{Cfg: cfg, Name: fmt.Sprintf("vb%s_%d_%d", shardTag, os.Getpid(), n)}
+	if name != "" {
+		w.Name = name
+	}
+	w.external = dir != ""
 	if cfg.Handles < 1 {
 		cfg.Handles = 1
 		w.Cfg.Handles = 1
@@ -96,21 +106,31 @@ func NewWorld(cfg Config) (*World, error) {
 		rosmar.MaxDocSize = cfg.MaxDocSize
 	}
 	if cfg.Disk {
-		dir, err := os.MkdirTemp(tmpRoot(), "vw")
-		if err != nil {
-			return nil, err
+		if dir == "" {
+			var err error
+			dir, err = os.MkdirTemp(tmpRoot(), "vw")
+			if err != nil {
+				return nil, err
+			}
 		}
 		w.Dir = dir
 		w.URL = "rosmar://" + filepath.Join(dir, "b")
 	} else {
 		w.URL = rosmar.InMemoryURL
 	}
-	if err := w.openHandles(rosmar.CreateNew); err != nil {
+	mode := rosmar.OpenMode(rosmar.CreateNew)
+	if existing {
+		mode = rosmar.ReOpenExisting
+	}
+	if err := w.openHandles(mode); err != nil {
 		w.Close()
 		return nil, err
 	}
 	// create the named collections through handle 0
 	for _, cn := range w.Cfg.Colls[1:] {
+		if existing {
+			break
+		}
 		if err := w.Handles[0].CreateDataStore(ctx, dsName(cn)); err != nil {
 			w.Close()
 			return nil, fmt.Errorf("CreateDataStore %s: %w", cn, err)
@@ -183,11 +203,17 @@ func (w *World) Close() {
 	for _, f := range w.Feeds {
 		f.Stop()
 	}
-	if len(w.Handles) > 0 {
-		_ = w.Handles[0].CloseAndDelete(ctx)
-	}
-	if w.Dir != "" {
-		_ = os.RemoveAll(w.Dir)
+	if w.external {
+		for _, b := range w.Handles {
+			b.Close(ctx)
+		}
+	} else {
+		if len(w.Handles) > 0 {
+			_ = w.Handles[0].CloseAndDelete(ctx)
+		}
+		if w.Dir != "" {
+			_ = os.RemoveAll(w.Dir)
+		}
 	}
 	rosmar.MaxDocSize = w.savedMaxDoc
 }
